@@ -29,8 +29,10 @@ from cantools.database.can.database import Database as CanDatabase
 from cantools.database.can.message import Message as CanMessage
 from cantools.database.can.signal import Signal as CanSignal
 from cantools.database.can.node import Node as CanNode
+from cantools.database.conversion import BaseConversion
 
 from fcp.specs.v2 import FcpV2
+from fcp.specs.type import FloatType, DoubleType
 from fcp.result import Result, Ok, Err
 from fcp.maybe import catch
 from fcp.encoding import make_encoder, EncodeablePiece, PackedEncoderContext
@@ -65,6 +67,9 @@ def _make_signals(
                     "big_endian" if piece.endianess == "big" else "little_endian"
                 ),
                 is_signed=piece.type.is_signed(),
+                conversion=BaseConversion.factory(
+                    is_float=isinstance(piece.type, (FloatType, DoubleType))
+                ),
                 minimum=0,
                 maximum=0,
                 unit=piece.unit,
